@@ -96,7 +96,7 @@ impl Exec {
             ensure!(events.executed_status == status, "C12", "C12/status-differs", "{} ended with {:?} on the worker but its acknowledgement reads {:?}", Self::describe(&pending.cmd), events.executed_status, status);
             let what = Self::describe(&pending.cmd);
             match pending.cmd {
-                Pending::Put { k, value, weight, ttl, .. } => {
+                Pending::Put { k, value, weight, ttl, from_upsert, .. } => {
                     let expected = self.apply_put(k, value, weight, ttl, &events, if many { None } else { estimates.as_ref().filter(|estimates| estimates.valid) }, status)?;
                     if expected != status {
                         let (property, tag) = match (expected, status) {
@@ -108,6 +108,9 @@ impl Exec {
                             _ => ("C06", "C06/status"),
                         };
                         return Err(Failure::new(property, tag, format!("{} was acknowledged {:?}, expected {:?} (limit {}, model now holds {:?})", what, status, expected, self.cfg.max_weight, self.model.held)));
+                    }
+                    if status == St::Accepted && from_upsert {
+                        if let Some(entry) = self.model.held.get_mut(&k) { entry.last_write_upsert = true; }
                     }
                     if status == St::Accepted {
                         let used = self.model.used();
@@ -520,6 +523,7 @@ fn run_seq_case_inner(case: &SeqCase, policy: &Policy) -> SeqOutcome {
             failure = Some(error);
         }
     }
+    if failure.is_none() { failure = exec.deferred.take(); }
     exec.shutdown();
     let stats = exec.stats.clone();
     drop(exec);
